@@ -923,13 +923,24 @@ func (t *streamableHTTPClientTransport) sendResponseToServer(response interface{
 		return
 	}
 
-	ctx, cancel := context.WithTimeout(context.Background(), 30*time.Second)
+	// The answer is sent on behalf of the listening stream, so it carries the context values of
+	// the handshake that opened that stream (but not its cancellation).
+	baseCtx := context.Background()
+	t.getSSEConn.mutex.Lock()
+	if t.getSSEConn.ctx != nil {
+		baseCtx = icontext.WithoutCancel(t.getSSEConn.ctx)
+	}
+	t.getSSEConn.mutex.Unlock()
+	ctx, cancel := context.WithTimeout(baseCtx, 30*time.Second)
 	defer cancel()
 
 	httpReq, err := http.NewRequestWithContext(ctx, http.MethodPost, t.serverURL.String(), bytes.NewReader(respBytes))
 	if err != nil {
 		t.logger.Errorf("Error creating HTTP request for response: %v", err)
 		return
+	}
+	if len(t.path) != 0 {
+		httpReq.URL.Path = t.path
 	}
 
 	httpReq.Header.Set("Content-Type", "application/json")
@@ -944,6 +955,14 @@ func (t *streamableHTTPClientTransport) sendResponseToServer(response interface{
 	// Add session ID if available
 	if sessionID := t.currentSessionID(); sessionID != "" {
 		httpReq.Header.Set(httputil.SessionIDHeader, sessionID) // Use correct MCP protocol header: Mcp-Session-Id.
+	}
+
+	// Apply HTTP before-request functions.
+	if t.client != nil {
+		if err := t.client.applyHTTPBeforeRequest(ctx, httpReq); err != nil {
+			t.logger.Errorf("HTTP before-request failed for response: %v", err)
+			return
+		}
 	}
 
 	var resp *http.Response
@@ -991,8 +1010,15 @@ func (t *streamableHTTPClientTransport) terminateSession(ctx context.Context) er
 		}
 	}
 
+	// Apply HTTP before-request functions.
+	if t.client != nil {
+		if err := t.client.applyHTTPBeforeRequest(ctx, httpReq); err != nil {
+			return fmt.Errorf("HTTP before-request failed: %w", err)
+		}
+	}
+
 	// Send request
-	httpResp, err := t.httpClient.Do(httpReq)
+	httpResp, err := t.httpReqHandler.Handle(ctx, t.httpClient, httpReq)
 	if err != nil {
 		return fmt.Errorf("HTTP request failed: %w", err)
 	}
